@@ -337,8 +337,14 @@ fn pow_case(c: &PowCase, _ctx: &Ctx) -> Out {
     let want_i: BigInt = Pow::pow(&c.base.big(), c.exp);
     let u = c.base.mag.ubig();
     let a = c.base.ibig();
-    cmp_u(&mut out, "UBig::pow", "-", &catch(|| u.pow(c.exp)), Some(&want_u));
-    cmp_i(&mut out, "IBig::pow", "-", &catch(|| a.pow(c.exp)), &want_i);
+    // the inherent method (named explicitly: with num_traits::Pow in scope `u.pow(e)` on an owned
+    // value resolves to the by-value trait impl) and both trait forms of the num-traits feature
+    cmp_u(&mut out, "UBig::pow", "-", &catch(|| UBig::pow(&u, c.exp)), Some(&want_u));
+    cmp_i(&mut out, "IBig::pow", "-", &catch(|| IBig::pow(&a, c.exp)), &want_i);
+    cmp_u(&mut out, "num_traits::Pow for UBig", "val", &catch(|| Pow::pow(u.clone(), c.exp)), Some(&want_u));
+    cmp_u(&mut out, "num_traits::Pow for UBig", "ref", &catch(|| Pow::pow(&u, c.exp)), Some(&want_u));
+    cmp_i(&mut out, "num_traits::Pow for IBig", "val", &catch(|| Pow::pow(a.clone(), c.exp)), &want_i);
+    cmp_i(&mut out, "num_traits::Pow for IBig", "ref", &catch(|| Pow::pow(&a, c.exp)), &want_i);
     out
 }
 
@@ -412,6 +418,47 @@ fn main() {
             cmp_u(&mut out, "UBig mul (blocks)", "commuted", &catch(|| &b * &a), Some(&prod));
             let sq = &na * &na;
             cmp_u(&mut out, "UBig sqr (blocks)", "sqr()", &catch(|| a.sqr()), Some(&sq));
+            out
+        },
+    );
+    // products whose longer factor is k·len(shorter) + r words: after the k equal-length blocks the
+    // left-over r-word slice is multiplied *on top of* the high half of the last block (non-zero
+    // accumulator, inter-chunk carries of mul/helpers.rs), by schoolbook chunks for r <= 24
+    ck.sub(
+        "mul_leftover",
+        (500, 12_000),
+        || {
+            let lb = prop_oneof![3 => 25usize..=60, 3 => 193usize..=400, 2 => 1024usize..=1100, 3 => 2048usize..=2300];
+            (lb, 1usize..=3, 0u8..8, 1usize..=30, any::<u64>(), 0u8..4, 0u8..4, any::<u64>(), any::<u64>()).prop_map(|(lb, k, rsel, r0, rs, pa, pb, sa, sb)| {
+                let k = if lb >= 1024 { k.min(2) } else { k };
+                let r = match rsel {
+                    0..=4 => r0,                                     // 1..30: around the schoolbook threshold
+                    5 => 1 + (rs % (lb as u64 - 1)) as usize,        // anywhere below one block
+                    6 => lb - 1 - (rs % 24) as usize,
+                    _ => 0,
+                };
+                let la = k * lb + r;
+                let pat = |p: u8| [2u8, 12, 12, 1][p as usize];
+                UPair { a: Nat(gen::expand(la, pat(pa), sa)), b: Nat(gen::expand(lb, pat(pb), sb)), rel: 0 }
+            })
+        },
+        |c: &UPair, _ctx: &Ctx| {
+            let mut out = Out::new();
+            let (a, b) = (c.a.ubig(), c.b.ubig());
+            let (na, nb) = (c.a.big(), c.b.big());
+            let (la, lb) = (c.a.trimmed_len(), c.b.trimmed_len());
+            out.nontrivial(true);
+            out.label(mul_algo(la, lb));
+            let r = if lb == 0 { 0 } else { la % lb };
+            out.label(match r {
+                0 => "leftover: none",
+                1..=24 => "leftover: 1-24 words (schoolbook)",
+                _ => "leftover: > 24 words",
+            });
+            out.label(if lb >= 2048 { "leftover: block >= 2048 words (schoolbook chunks of 1024)" } else if lb >= 1024 { "leftover: block 1024..2047 words" } else { "leftover: block < 1024 words" });
+            let prod = &na * &nb;
+            cmp_u(&mut out, "UBig mul (leftover)", "ref.ref", &catch(|| &a * &b), Some(&prod));
+            cmp_u(&mut out, "UBig mul (leftover)", "commuted", &catch(|| &b * &a), Some(&prod));
             out
         },
     );
